@@ -338,23 +338,20 @@ impl<T: Qcow2IoOps> Qcow2Dev<T> {
         let key = cls.rb_slice_key(info);
         let rb_cache = &self.refblock_cache;
 
-        // fast path
-        if let Some(entry) = rb_cache.get(key) {
-            return Ok(entry);
-        }
+        // A slice which was just added can be evicted by another task
+        // before we get hold of it, so try again then.
+        loop {
+            if let Some(entry) = rb_cache.get(key) {
+                return Ok(entry);
+            }
 
-        self.add_rb_slice(
-            rt_e,
-            key,
-            cls.rb_slice_off_in_table(info),
-            RefBlock::new(info.refcount_order, 1 << info.rb_slice_bits, None),
-        )
-        .await?;
-
-        if let Some(entry) = rb_cache.get(key) {
-            Ok(entry)
-        } else {
-            Err("Fail to load refcount block".into())
+            self.add_rb_slice(
+                rt_e,
+                key,
+                cls.rb_slice_off_in_table(info),
+                RefBlock::new(info.refcount_order, 1 << info.rb_slice_bits, None),
+            )
+            .await?;
         }
     }
 
